@@ -54,3 +54,7 @@ func NewServer(h server.Handler[handler.State], readTimeout time.Duration, logge
 func WrapSlogHandler(h slog.Handler) slog.Handler {
 	return &handler.SlogContextHandler{Handler: h}
 }
+
+// SetAfterCommandReadHook installs a function that every connection's goroutine calls between reading a
+// command header and reading its arguments (nil removes it). Used to inject scheduling delays.
+func SetAfterCommandReadHook(f func()) { server.SetAfterCommandReadHook(f) }
